@@ -8,8 +8,13 @@ ASSUME = ["per-kind predicates are written from tokenizer.txt and the statement;
           "maximal munch is not demanded; an empty comment body token is allowed"]
 
 
+# the same check interpreted by Miri: the token-kind transmute in the lexer would be UB for an invalid discriminant
+MIRI = {"quick": ["--maxlen", "2", "--random", "1600", "--mutants", "160"],
+        "thorough": ["--maxlen", "3", "--random", "24000", "--mutants", "1600"], "shards": 16}
+
+
 def run(tier, seed):
-    return run_probe_check("C22", tier, seed, RULE, ASSUME, corpus=True, shards=8 if tier == "thorough" else 1, min_evals=100000)
+    return run_probe_check("C22", tier, seed, RULE, ASSUME, corpus=True, shards=8 if tier == "thorough" else 1, min_evals=100000, miri=MIRI)
 
 
 def replay(path):
